@@ -294,6 +294,7 @@ class Gen:
             self.ctx_children(e, 1)
         if rng.random() < 0.4:
             r, = self.at(n, "rotating", [(n, "RotatingCoordinates_t", "RotatingCoordinates", None)])
+            self.implicit_arrays(r, ["RotationCenter", "RotationRateVector"])      # written by cg_rotating_write itself
             self.ctx_children(r, 2)
         self.ctx_children(n, 0)
 
@@ -332,6 +333,7 @@ class Gen:
                 pz.append((p, pi + 1))
             if rng.random() < 0.4:
                 g, = self.create("gravity %d" % B, base, [(base, "Gravity_t", "Gravity", None)])
+                self.implicit_arrays(g, ["GravityVector"])
                 self.ctx_children(g, 2)
             self.common_ctx(base, B)
             self.has_biter = has_biter
@@ -406,6 +408,7 @@ class Gen:
                 made = self.create("bcarea %d %d %d" % (B, Z, nbc), bc, [(bc, "BCProperty_t", "BCProperty", None)])
                 bp = made[0]
                 a, = self.create("bcarea %d %d %d" % (B, Z, nbc), bp, [(bp, "Area_t", "Area", None)])
+                self.implicit_arrays(a, ["SurfaceArea", "RegionName"])
                 self.script.pop(-2)
                 self.ctx_children(a, 2)
             if bp is not None:
@@ -431,6 +434,7 @@ class Gen:
                 made = self.create("cperio %d %d %d" % (B, Z, nconn), c, [(c, "GridConnectivityProperty_t", "GridConnectivityProperty", None)])
                 cp = made[0]
                 pe, = self.create("cperio %d %d %d" % (B, Z, nconn), cp, [(cp, "Periodic_t", "Periodic", None)])
+                self.implicit_arrays(pe, ["RotationCenter", "RotationAngle", "Translation"])
                 self.script.pop(-2)
                 self.ctx_children(pe, 2)
             if rng.random() < 0.4:
@@ -490,6 +494,7 @@ class Gen:
             self.ctx_children(sf, 2)
         if rng.random() < 0.3:
             r, = self.at(f, "rotating", [(f, "RotatingCoordinates_t", "RotatingCoordinates", None)])
+            self.implicit_arrays(r, ["RotationCenter", "RotationRateVector"])
         self.ctx_children(f, 1)
 
     def build_pzone(self, B, p, P):
@@ -763,6 +768,13 @@ class Gen:
                                 "OversetHoles_t", "BC_t", "BCDataSet_t", "Elements_t")
                  or (x.label == "DataArray_t" and x.parent.label == "UserDefinedData_t")]
         return [x for x in cands if x.parent is not self.tree.root]
+
+    def implicit_arrays(self, node, names):
+        """DataArray_t children the writer of `node` creates by itself: they are nodes of the tree (countable, navigable)"""
+        if (node.label, "DataArray_t") in self.tab.arms:
+            for nm in names:
+                self.tree.add(node, "DataArray_t", nm, None)
+            self.stats["kinds"].add("DataArray_t")
 
     def delete_sweep(self, limit):
         """for up to `limit` (parent, kind) groups with two or more deletable siblings: delete one that is NOT the last
